@@ -14,7 +14,10 @@ trap 'git -C /repo worktree remove --force $wt >/dev/null 2>&1; rm -rf $wt' EXIT
 demo_clean=NA; demo_mut=NA
 if [ -f $src/demo.sh ]; then bash $src/demo.sh $wt >/dev/null 2>&1; demo_clean=$?; (cd $wt && git checkout -q -- . 2>/dev/null); fi
 base=HEAD
-if ! git -C $wt apply $src/patch.diff 2>/dev/null && ! git -C $wt apply -3 $src/patch.diff 2>/dev/null; then
+if [ -f $src/patch.ported.diff ] && git -C $wt apply $src/patch.ported.diff 2>/dev/null; then
+  # the same change carried over to the current tree after a fix: commit touched the lines around it
+  base="HEAD (patch.ported.diff)"
+elif ! git -C $wt apply $src/patch.diff 2>/dev/null && ! git -C $wt apply -3 $src/patch.diff 2>/dev/null; then
   # a later fix: commit rewrote the same lines: the change is kept against the tree it was written for
   (cd $wt && git checkout -q -- . 2>/dev/null)
   for b in ${BASES:-61a521a 54b0103}; do
